@@ -926,3 +926,150 @@ def r_lookup_runs_no_code(ctx, repo):
     if n == 0:
         rule.ok(f.loc(), 'no document-named attribute lookup reachable with unsafe false')
     return rule
+
+
+# ------------------------------------------------------------------------------------------ R-DOCMARKER-FOLLOW-AGREE
+def r_docmarker_follow_agree(ctx, repo):
+    """A document marker is `---` / `...` at column 0 followed by a blank, a line break or the end of input.  The scanner tests
+    that in several places (where a token starts; where a plain scalar and a quoted scalar continue on the next line), and all
+    of them must agree, character for character, on what may follow the marker: a character accepted at one site only ends a
+    scalar at a marker that is then not scanned as one (or the reverse).  Decided by evaluating, at every conjunction that
+    compares three characters with '---' / '...', the test applied to the character after them for the probe characters."""
+    from . import charworld as CW
+    rule = ctx.rule('R-DOCMARKER-FOLLOW-AGREE', 'every place of the scanner that recognises a document marker accepts the same characters '
+                                                'after it')
+    S = repo.cls('scanner.Scanner')
+    probes = sorted(set(CW.representative_chars(repo, 'scanner')) | set('\0 \t\r\n\x85  a-.'))
+    sites = []
+    for name, f in sorted(S.methods.items()):
+        # only functions that compare three characters with a marker
+        if not any(isinstance(c, ast.Constant) and c.value in ('---', '...') for c in ast.walk(f.node)):
+            continue
+        cfg = CFG(f.node)
+        for n in cfg.nodes:
+            if n.kind != 'test' or n.ast is None:
+                continue
+            t = n.ast
+            # the atomic test of the character after the marker: `self.peek(3) in <literal>` (any spelling of membership)
+            def after_marker(x):
+                # self.peek(3), or the 4th character of a local holding self.prefix(n >= 4): c[3], c[3:], c[3:4]
+                if isinstance(x, ast.Call) and isinstance(x.func, ast.Attribute) and x.func.attr == 'peek' \
+                        and len(x.args) == 1 and A.const_value(x.args[0]) == 3:
+                    return True
+                if isinstance(x, ast.Subscript) and isinstance(x.value, ast.Name):
+                    sl = x.slice
+                    idx = A.const_value(sl.lower) if isinstance(sl, ast.Slice) and sl.lower is not None else (
+                        A.const_value(sl) if not isinstance(sl, ast.Slice) else None)
+                    if idx == 3 and (not isinstance(sl, ast.Slice) or sl.upper is None or A.const_value(sl.upper) == 4):
+                        defs = [y.value for y in walk_function(f.node) if isinstance(y, ast.Assign)
+                                and any(isinstance(tg, ast.Name) and tg.id == x.value.id for tg in y.targets)]
+                        return len(defs) == 1 and isinstance(defs[0], ast.Call) and isinstance(defs[0].func, ast.Attribute) \
+                            and defs[0].func.attr == 'prefix' and defs[0].args and isinstance(A.const_value(defs[0].args[0]), int) \
+                            and A.const_value(defs[0].args[0]) >= 4
+                return False
+            peek3 = [x for x in ast.walk(t) if after_marker(x)]
+            if not peek3:
+                continue
+            # ... in a function that compares three characters with a marker
+            marker = any(isinstance(c, ast.Constant) and c.value in ('---', '...') for c in ast.walk(f.node))
+            if not marker:
+                continue
+            acc = set()
+            undecided = False
+            for ch in probes:
+                from .rules_emit import rebuild
+
+                def fn(node, ch=ch):
+                    if after_marker(node):
+                        return ast.copy_location(ast.Constant(value=ch), node)
+                    return None
+                tt = rebuild(t, fn)
+                v = CW.eval_cond(repo, tt, {})
+                if v is None:
+                    undecided = True
+                elif v:
+                    acc.add(ch)
+            if undecided:
+                raise AnalysisError('%s: the test of the character after a document marker (%s) is not decidable' % (f.qualname, norm(t)[:60]))
+            sites.append((f, n, frozenset(acc)))
+    if len(sites) < 4:
+        raise AnalysisError('only %d document-marker tests found in the scanner (5 confirmed)' % len(sites))
+    # the reference is the majority set; every site must equal it
+    from collections import Counter
+    ref = Counter(s for _, _, s in sites).most_common(1)[0][0]
+    for f, n, acc in sites:
+        if acc == ref:
+            rule.ok(f.loc(n.ast), '%s: same follow set' % f.name)
+        else:
+            diff = sorted(acc ^ ref)
+            rule.fail('%s|follow' % f.qualname, f.module.rel, n.lineno, f.qualname, A.anon_text(n.ast, f.node, 60),
+                      '%s accepts a different set of characters after a document marker than the other %d places (%s differ): a '
+                      'marker followed by such a character ends a scalar at one place and is not scanned as a marker at the other, so '
+                      'a stream written with that line break does not keep its document boundaries'
+                      % (f.name, len(sites) - 1, ', '.join(repr(c) for c in diff[:5])))
+    return rule
+
+
+# -------------------------------------------------------------------------------------------- R-DIRECTIVE-NAME-EXACT
+def r_directive_name_exact(ctx, repo):
+    """The scanner builds a directive token's value only for the exact names it compares (`name == 'YAML'`, `name == 'TAG'`);
+    for any other name the value is None.  The parser unpacks the value of the directives it recognises, so it must recognise
+    them by comparing the same, untransformed name with (a subset of) the same literals: a comparison after .upper() /
+    .lower() / .strip() admits names for which the scanner built no value (TypeError on unpacking None)."""
+    rule = ctx.rule('R-DIRECTIVE-NAME-EXACT', 'the parser recognises directives by comparing the untransformed token name with literals the '
+                                              'scanner builds a value for')
+    sc = _method(repo, 'scanner.Scanner', 'scan_directive')
+    built = set()
+    for x in walk_function(sc.node):
+        if isinstance(x, ast.Compare) and len(x.ops) == 1 and isinstance(x.ops[0], (ast.Eq, ast.In)):
+            for c in x.comparators:
+                v = A.const_value(c)
+                if isinstance(v, str):
+                    built.add(v)
+                elif isinstance(v, (tuple, list)):
+                    built |= {y for y in v if isinstance(y, str)}
+    if not built:
+        raise AnalysisError('scan_directive: the names a value is built for were not found')
+    pf = _method(repo, 'parser.Parser', 'process_directives')
+    n = 0
+    for x in walk_function(pf.node):
+        if not (isinstance(x, ast.Compare) and len(x.ops) == 1 and isinstance(x.ops[0], (ast.Eq, ast.NotEq, ast.In, ast.NotIn))):
+            continue
+        sides = [x.left] + list(x.comparators)
+        # a local bound once to (an expression over) the token's name stands for that expression
+        resolved = []
+        for sd in sides:
+            if isinstance(sd, ast.Name):
+                vals = A.local_values(pf.node, sd, pf.params)
+                if len(vals) == 1 and any(isinstance(y, ast.Attribute) and y.attr == 'name' for y in ast.walk(vals[0])):
+                    sd = vals[0]
+            resolved.append(sd)
+        sides = resolved
+        name_side = [s for s in sides if any(isinstance(y, ast.Attribute) and y.attr == 'name' for y in ast.walk(s))]
+        if not name_side:
+            continue
+        n += 1
+        s0 = name_side[0]
+        lits = set()
+        for s in sides:
+            if s is s0:
+                continue
+            v = A.const_value(s)
+            if isinstance(v, str):
+                lits.add(v)
+            elif isinstance(v, (tuple, list)):
+                lits |= {y for y in v if isinstance(y, str)}
+        if not (isinstance(s0, ast.Attribute) and s0.attr == 'name'):
+            rule.fail('%s|transformed' % pf.qualname, pf.module.rel, x.lineno, pf.qualname, A.anon_text(x, pf.node, 60),
+                      'the directive name is transformed (%s) before it is compared: names the scanner built no value for (it compares '
+                      'the exact names %s) are taken for known directives and their value None is unpacked - TypeError instead of '
+                      'the directive being ignored' % (norm(s0)[:40], ', '.join(sorted(built))))
+        elif not lits <= built:
+            rule.fail('%s|unknown-name' % pf.qualname, pf.module.rel, x.lineno, pf.qualname, A.anon_text(x, pf.node, 60),
+                      'the parser recognises the directive name(s) %s, for which the scanner builds no value'
+                      % ', '.join(sorted(lits - built)))
+        else:
+            rule.ok(pf.loc(x), 'token.name compared with %s' % ', '.join(sorted(lits)))
+    if n < 2:
+        raise AnalysisError('process_directives: only %d comparisons of the directive name found' % n)
+    return rule
